@@ -1,6 +1,6 @@
 (* C07 — the global invariant of the operational scheduler model and its preservation by every event. *)
 From Coq Require Import List Arith Bool PeanoNat Lia Permutation.
-From C07 Require Import Model ProofsSeq Proofs ProofsSched.
+From C07 Require Import Model ProofsSeq Proofs ProofsSched Blocker.
 Import ListNotations.
 
 Notation cnt := (count_occ Nat.eq_dec).
@@ -814,5 +814,24 @@ Qed.
 Theorem no_deadlock_run : 1 <= N -> forall sched st, par N sched = Some st -> finished Iface Errs nodes N st = false ->
   exists e, step' st e <> None.
 Proof. intros HN sched st Hrun Hfin. apply progress; auto. eapply inv_reachable; eauto. Qed.
+
+(* the view a worker analyses its next SCC with is the sequential view (used for blockers) *)
+Lemma wview_sequential : forall st w s todo fin, Inv st -> ph (wk st w) = PIface (s :: todo) fin ->
+  wview Iface Errs nodes deps st w s = view_of Iface SI (td s) /\ In s nodes /\ stale s.
+Proof.
+  intros st w s todo fin HI Hph.
+  destruct (busy_lt st w HI) as [Hw Hnf]; [congruence|].
+  pose proof (i_wok st HI w) as [Hm Hs]. rewrite Hph in Hs. simpl in Hs.
+  destruct (outbox (wk st w)) eqn:Ho; [|contradiction]. destruct Hs as [Hs1 Hs2].
+  assert (Hrel : In s (released st)).
+  { unfold released. rewrite !in_app_iff. right; right; left. apply (in_inflight st w s Hw). unfold w_ids. rewrite Hph. simpl. auto. }
+  split; [|split; [apply (i_rel st HI s Hrel) | apply Hs1; left; auto]].
+  unfold wview. apply view_of_ext. intros d Hd. apply mget_correct.
+  - intros d0 v Hin. apply in_app_or in Hin as [Hin|Hin]; [apply Hm; auto|].
+    apply in_map_iff in Hin as [x [Hx1 Hx2]]. inversion Hx1; subst. unfold to_load in Hx2. apply filter_In in Hx2 as [Hx2 _].
+    apply (i_v1 st HI). apply (released_tdeps_done st HI s Hrel); auto.
+  - rewrite mhas_app. destruct (mhas Iface (mem (wk st w)) d) eqn:E; auto. simpl.
+    apply mhas_loaded'. unfold to_load. apply filter_In; split; auto. rewrite E; auto.
+Qed.
 
 End Inv.
